@@ -9,7 +9,10 @@ import (
 )
 
 func genCase(t *rapid.T) Case {
-	k := rapid.IntRange(8, 16).Draw(t, "nprog")
+	k := rapid.IntRange(1, 16).Draw(t, "nprog")
+	if k < 8 {
+		k = 16 - k // mostly large batches (one toolchain invocation each); shrinking still reaches 1..8
+	}
 	c := Case{}
 	for i := 0; i < k; i++ {
 		c.Progs = append(c.Progs, genProg(t))
@@ -277,7 +280,7 @@ func (g *gen) genFunc(kind string) {
 		for i := 0; i < np; i++ {
 			sig.params = append(sig.params, Field{fmt.Sprintf("a%d", i), pts[g.n(len(pts), "pt")]})
 		}
-		nr := g.weighted([]int{15, 55, 25, 5}, "nr")
+		nr := g.weighted([]int{25, 48, 22, 5}, "nr")
 		for i := 0; i < nr; i++ {
 			rt := resultTypes[g.n(len(resultTypes), "rt")]
 			if nr == 1 && len(g.pr.Structs) > 0 && g.chance(15) {
@@ -339,7 +342,7 @@ func (g *gen) genFunc(kind string) {
 	}
 	// receiver and parameters
 	if sig.recv != "" {
-		rv := &vinfo{name: "t", typ: sig.recv}
+		rv := &vinfo{name: "t", typ: sig.recv, param: true}
 		if !sig.mutRecv {
 			rv.ro = true
 		}
@@ -347,7 +350,7 @@ func (g *gen) genFunc(kind string) {
 		fn.Recv = &Field{Name: "t", Type: sig.recv}
 	}
 	for i, p := range sig.params {
-		v := &vinfo{name: p.Name, typ: p.Type}
+		v := &vinfo{name: p.Name, typ: p.Type, param: true}
 		switch p.Type {
 		case "int":
 			switch {
@@ -402,6 +405,9 @@ func (g *gen) genFunc(kind string) {
 		if r.Type == "string" {
 			v.growing, v.ascii = true, false
 		}
+		if r.Type == "[]byte" {
+			v.maybeNil, v.growing = true, true
+		}
 		g.add(v)
 	}
 	fn.Name = sig.name
@@ -428,8 +434,31 @@ func (g *gen) genFunc(kind string) {
 	if f.hasDefer && g.chance(70) {
 		body = append(body, g.stDefer())
 	}
+	if kind == "exported" || kind == "helper" {
+		body = append(body, g.prelude()...)
+	}
 	st, term := g.genStmts(maxSt)
 	body = append(body, st...)
+	if f.fuel != nil && f.selfCalls == 0 && !term && g.softStmtOK() && g.chance(80) {
+		// make the recursive function recurse
+		args, acc, ok := g.genArgs(sig, 1)
+		if ok {
+			g.noteExpr(acc)
+			f.selfCalls++
+			g.mark("recursion")
+			call := &Node{K: "call", S: sig.name, A: args}
+			if len(sig.results) == 0 {
+				body = append(body, &Node{K: "expr", A: []*Node{call}})
+			} else {
+				n := &Node{K: "mret", S: "=", N: int64(len(sig.results))}
+				for range sig.results {
+					n.A = append(n.A, vr("_"))
+				}
+				n.A = append(n.A, call)
+				body = append(body, n)
+			}
+		}
+	}
 	if len(sig.results) > 0 || g.chance(20) {
 		if !term || len(sig.results) > 0 {
 			body = append(body, g.stReturn())
@@ -459,6 +488,33 @@ func (g *gen) genFunc(kind string) {
 	g.funcs = append(g.funcs, sig)
 	g.pr.Funcs = append(g.pr.Funcs, fn)
 	g.f = nil
+}
+
+// prelude declares a few container / struct variables at the start of a function so that the statements working on
+// them have something to work on.
+func (g *gen) prelude() []*Node {
+	var out []*Node
+	typs := []string{"[]int", "map[int]int", "map[string]int"}
+	if len(g.pr.Structs) > 0 {
+		typs = append(typs, "*T0", "T1", "*T1")
+	}
+	for _, typ := range typs {
+		if !g.chance(30) {
+			continue
+		}
+		e, ok := g.genFreshOf(typ, 1)
+		if !ok {
+			continue
+		}
+		g.noteExpr(e)
+		name := g.newName(false)
+		out = append(out, &Node{K: "define", S: name, A: []*Node{e.n}})
+		v := g.declare(name, typ, e)
+		if typ == "[]int" {
+			v.growing = true
+		}
+	}
+	return out
 }
 
 // stReturnValues: a return with explicit simple values (used for the recursion base case).
